@@ -6,4 +6,6 @@ mkdir -p bin evidence replays
 go build -o bin/seq ./props/seq || exit 1
 go build -o bin/vinstr ./cmd/vinstr || exit 1
 tools/build_overlay.sh pure || exit 1
+tools/build_overlay.sh conc || exit 1
+tools/build_overlay.sh conc_race || exit 1
 echo "setup ok"
